@@ -27,7 +27,7 @@ const GRANS: [usize; 3] = [1, 3, 8];
 const CHUNKS: [usize; 2] = [1, 3];
 const LETTERS: [&str; 12] = [
 	"none",
-	"set_volume(-6dB, 2 frames)",
+	"set_volume(-6dB, 6 frames)",
 	"set_panning(0.5, instant)",
 	"pause(instant)",
 	"pause(2 frames)",
@@ -95,7 +95,7 @@ impl Check for C09 {
 		format!("len {} rate {}", len, rate)
 	}
 	fn rule(&self) -> String {
-		"product of audio length (1,2,3,5,8; 1..=8 thorough) x rate {1,0.5,2,1.5,0} x packet pattern {1s,2s,3s,one packet,1-3-2} x seek granularity {1,3,8} x start position 0..len-1 x slice {none,(1,len-1)} x loop {none, whole, every (a,b) with a<b on a 3-point lattice} x chunk {1,3} x all command histories (no seeks) of length <= 1 (2 thorough) over 12 letters (4 of them two life-cycle commands in one callback interval); loop regions incl. open-ended ones; static and streaming sound in lock-step: output frames (bit-exact at integer steps, 1e-6 otherwise), finished()/state after every callback, positions within one frame. The reference model is the static implementation (differential); states = distinct (state, position) pairs observed; non-trivial = scenarios with non-silent output".into()
+		"product of audio length (1,2,3,5,8; 1..=8 thorough) x rate {1,0.5,2,1.5,0} x packet pattern {1s,2s,3s,one packet,1-3-2} x seek granularity {1,3,8} x start position 0..len-1 x slice {none,(1,len-1)} x loop {none, whole, every (a,b) with a<b on a 3-point lattice} x chunk {1,3} x all command histories (no seeks) of length <= 1 (2 thorough) over 12 letters (4 of them two life-cycle commands in one callback interval); loop regions incl. open-ended ones; plus 4 scripted histories (a volume / rate tween in progress while the sound is paused, then resumed) for start position 0; static and streaming sound in lock-step: output frames (bit-exact at integer steps, 1e-6 otherwise), finished()/state after every callback, positions within one frame. The reference model is the static implementation (differential); states = distinct (state, position) pairs observed; non-trivial = scenarios with non-silent output".into()
 	}
 	fn assumptions(&self) -> Vec<String> {
 		vec![
@@ -142,12 +142,19 @@ impl Check for C09 {
 			for start in 0..n {
 				for lp in &loops {
 					for &chunk in &CHUNKS {
-						for h in 0..nh {
+						// beyond the depth bound: a few scripted histories in which a parameter is in motion while the sound waits
+						let scripts: [&[usize]; 4] = [&[1, 3, 0, 5], &[7, 4, 0, 0, 5], &[1, 4, 5], &[2, 3, 0, 0, 5]];
+						let nscripts = if start == 0 { scripts.len() as u64 } else { 0 };
+						for h in 0..nh + nscripts {
 							let mut hist = vec![];
-							let mut x = h;
-							for _ in 0..d {
-								hist.push((x % LETTERS.len() as u64) as usize);
-								x /= LETTERS.len() as u64;
+							if h >= nh {
+								hist = scripts[(h - nh) as usize].to_vec();
+							} else {
+								let mut x = h;
+								for _ in 0..d {
+									hist.push((x % LETTERS.len() as u64) as usize);
+									x /= LETTERS.len() as u64;
+								}
 							}
 							let sc = Sc {
 								len,
@@ -221,7 +228,7 @@ fn tw(frames: f64) -> Tween {
 
 fn apply(h: &mut dyn SoundHandle, l: usize) {
 	match l {
-		1 => h.set_volume(Value::Fixed(Decibels(-6.0)), tw(2.0)),
+		1 => h.set_volume(Value::Fixed(Decibels(-6.0)), tw(6.0)),
 		2 => h.set_panning(Value::Fixed(Panning(0.5)), tw(0.0)),
 		3 => h.pause(tw(0.0)),
 		4 => h.pause(tw(2.0)),
